@@ -6,6 +6,9 @@ TECH = "deterministic simulation with fault injection"
 NOTE_COMMON = ("Trusted base: the go/ast instrumenter (tools/instrument) and the sim packages (sim/simrt, simsync, simfs, simclock, simexec, simwire) reproduce the semantics of the constructs they replace; "
                "the oracle/reference model written in sim/engine; Go toolchain go1.26.8. Seeded search: a clean batch is evidence, not proof. ")
 CHECKS = {
+ "C13": dict(level="exploration", design="5.13",
+   text="Full-server simulation over the wire (real jsonrpc2 framing and read loop, real protocol dispatch, generated copy of the dispatcher, instrumented server): bursts of 2..5 changes to 1..2 documents carrying version markers; the simulator owns which publish goroutine runs and where it is preempted. For bursts of 2,3,4 changes EVERY permutation of publish order is enumerated under two policies (publish-point release, run-to-completion): 128 schedules; seeded fine-grained interleavings under 7 schedule policies cover bursts up to 5 with notifications arriving mid-analysis. Oracle: at quiescence the last publishDiagnostics per open URI carries the marker of the latest version only. Schedules are exactly what this property quantifies over.",
+   note="Markers make the verdict independent of what other diagnostics say. Back-pressure on stdout is not simulated."),
  "C10": dict(level="fault_enumeration", design="5.10",
    text="Component simulation of the real include.Loader on a simulated disk: generated include graphs (<=5 files, all path forms, globs, cycles, diamonds, dangling/oversized/directory targets, depth and size limits) are resolved under seeded sticky and one-shot disk faults, and for a set of graphs EVERY single one-shot fault kind is injected at EVERY disk-call index of the fault-free execution. Each result is compared with an independent ancestor-stack reachability model that is fed the outcomes of the loader's own disk calls. Exploration + complete single-fault enumeration per graph is the right level: the property quantifies over graphs and over what the disk answers, both of which the simulator owns.",
    note="Depth limit semantics are ambiguous by one (does the root count?): the model asserts nothing at the boundary. The glob matcher is the real doublestar code over an fs.FS view of the simulated disk."),
